@@ -89,7 +89,7 @@ func (o *Op) Key() string {
 func (o *Op) String() string { return o.Key() }
 
 // SrcPaths are the pages a sub-request may come from.
-var SrcPaths = []string{"/page", "/checkout/", "/news/today", "/"}
+var SrcPaths = []string{"/page", "/checkout/", "/news/today", "/", "/app?debug=1", "/app?debug=0", "/app#top"}
 
 // MutateWebOp returns a copy of a URL-style op that differs from o in exactly
 // one of: content type, URL path, source page (same source host).  Per-page
